@@ -15,6 +15,24 @@ CHECKS = {
  'C29': (['asan'], 'exhaustive ordered-pair table vs exact extended-real comparison + consistency laws + substitution into symbolic relationals',
          'All ordered pairs of 46 real representatives x 6 relations (direct and via subs) are judged against exact Fraction comparison.',
          'Doubles are converted exactly to Fractions; float-infinity vs symbolic-infinity ties are judged by the laws only.', 'DESIGN.md 3/C29'),
+ 'C01': (['asan'], 'in-executor all-pairs monitor: eq both ways vs hash, plus hash-keyed container probes (finiteset, set_basic, unordered set) over universes of objects built along different construction paths',
+         'Every unordered pair inside generated universes (numbers of all kinds incl. signed zeros and NaN, polynomials over permuted variable sets, sums/products built in different orders, parse/serialize round trips) is checked for eq => equal hash and for container sizes matching the number of eq-classes.',
+         'Only pairs the generators bring together; hash collisions of unequal objects are counted, not judged.', 'DESIGN.md 3/C01'),
+ 'C02': (['asan'], 'exhaustive order-axiom check on the full __cmp__/eq/RCPBasicKeyLess matrices of generated universes (antisymmetry, cmp==0 iff eq, transitivity over all triples)',
+         'For every universe the n x n matrices of __cmp__, eq and the container comparator are computed by the real library and all pairs and triples are checked against the strict-total-order axioms.',
+         'Universes are sampled; within a universe the check is complete.', 'DESIGN.md 3/C02'),
+ 'C04': (['asan'], 'algebraic-law monitor: same operand multiset built under all permutations/bracketings/n-ary vs pairwise routes must give eq results and equal strings; mpmath evaluation separates value errors',
+         'Each operand multiset is combined along many construction routes through the real add/mul/max/min/and/or; all results are compared with the first.',
+         'Value-different results are routed to C07; only structural divergence of equal values is judged here.', 'DESIGN.md 3/C04'),
+ 'C07': (['asan'], 'event-log monitor: result tree evaluated by an independent mpmath evaluator at generic complex points vs the recipe evaluated operation by operation (principal branch); fresh-process confirmation and shrinking',
+         'Random and template recipes aimed at the automatic rewrite rules are built through the real API; each result is judged by value at 3 points with confirmation at higher precision.',
+         'mpmath principal-branch conventions; points are generic complex so defects confined to branch cuts are out of scope, as in the property.', 'DESIGN.md 3/C07'),
+ 'C08': (['asan'], 'event-log monitor vs mpmath reference: exhaustive numeric grid of constructor special cases + symbolic arguments judged at random points',
+         'Every function constructor is called on the special-value grid (table angles, inverse-table values, gamma-family arguments, floats) and on symbolic shifts/negations; the returned tree must have the value of the function at the argument.',
+         'mpmath conventions for special functions; points at genuine singularities / conventions (documented in the monitor) are not judged.', 'DESIGN.md 3/C08'),
+ 'C33': (['asan'], 'history monitor: sieve call histories replayed against an Eratosthenes model, ASan/UBSan on the segment buffer; exhaustive short histories + random long ones around segment boundaries',
+         'Each case is a history of generate_primes / iterator / clear / set_sieve_size / set_clear calls from a forced known state; every output is compared with the reference prime list.',
+         'set_sieve_size(0) excluded; limits up to ~1.1e6.', 'DESIGN.md 3/C33'),
 }
 
 def main():
